@@ -1,4 +1,5 @@
 import DmrVerif.Lemmas.Trellis
+import DmrVerif.Lemmas.TrellisStore
 
 /-!
 # C10 — rate ¾ trellis coding is lossless for every 144-bit block
@@ -204,6 +205,102 @@ theorem flush_dropped (ts : List Nat) (h : ts.length = 48) (x : Nat) :
     tribitsToBits (ts ++ [x]) = .ok (ts.flatMap tribitBits) :=
   tribitsToBits_flush ts h x
 
+/-! ## arguments and results as objects the caller keeps
+
+The theorems above speak about values.  A caller holds *objects*: he keeps the streams and blocks he
+got back, edits them in place (channel errors, padding, trimming), passes the same argument object
+again.  `Model/TrellisStore.lean` makes this explicit: `Store` = the objects held so far, `HOp.call`
+appends the result of a call as a **new** object, `HOp.edit` is an in-place edit by the caller,
+`runOps` a whole history.  The correspondence run executes the same histories on the real code, keeps
+every object and reads all of them back. -/
+
+/-- whatever the caller holds (an argument he built, a stream or block he got back) keeps its content
+through any further history of calls and edits, as long as he does not edit *that* object -/
+theorem held_object_stable (h : Store) (ops : List HOp) (r : Nat) (hr : r < h.size)
+    (ht : ∀ op ∈ ops, op.target ≠ some r) : (runOps h ops).read r = h.read r :=
+  read_runOps h ops r hr ht
+
+/-- a call hands out a new object whose content is the function of the argument's *current* content —
+the same after any two histories `h`, `h'` and for any two argument objects `r`, `r'` with that content —
+and it changes nothing the caller already holds, the argument included -/
+theorem call_is_history_free (h h' : Store) (f : Fn) (r r' : Nat) (o : Obj)
+    (hr : h.read r = some o) (hr' : h'.read r' = some o) :
+    ((HOp.call f r).run h).read h.size = some (f.apply o)
+      ∧ ((HOp.call f r').run h').read h'.size = some (f.apply o)
+      ∧ ((HOp.call f r).run h).size = h.size + 1
+      ∧ ∀ k, k < h.size → ((HOp.call f r).run h).read k = h.read k := by
+  obtain ⟨a1, a2, a3⟩ := HOp.run_call h f r o hr
+  obtain ⟨_, b2, _⟩ := HOp.run_call h' f r' o hr'
+  exact ⟨a2, b2, a1, a3⟩
+
+/-- two results are two objects: after `x = f(a); y = g(b)` the caller holds `f(a)` **and** `g(b)` -/
+theorem two_results_coexist (h : Store) (f g : Fn) (r1 r2 : Nat) (o1 o2 : Obj)
+    (h1 : h.read r1 = some o1) (h2 : h.read r2 = some o2) :
+    (runOps h [.call f r1, .call g r2]).read h.size = some (f.apply o1)
+      ∧ (runOps h [.call f r1, .call g r2]).read (h.size + 1) = some (g.apply o2) := by
+  obtain ⟨a1, a2, a3⟩ := HOp.run_call h f r1 o1 h1
+  have h2' : ((HOp.call f r1).run h).read r2 = some o2 := by
+    rw [a3 r2 (Store.read_lt h r2 o2 h2)]; exact h2
+  obtain ⟨_, b2, b3⟩ := HOp.run_call ((HOp.call f r1).run h) g r2 o2 h2'
+  simp only [runOps, List.foldl_cons, List.foldl_nil]
+  refine ⟨?_, ?_⟩
+  · rw [b3 h.size (by omega)]; exact a2
+  · rw [← a1]; exact b2
+
+/-- the property inside any history: after whatever happened before (`h`), encoding a 144-bit block
+hands out a 196-bit stream; after whatever happens next (`ops`: further encodes of the same or other
+blocks, in-place edits of the argument, of earlier streams, of anything but this stream) the stream
+is still there and decoding it returns the block -/
+theorem round_trip_in_history (h : Store) (b : Bits) (hb : b.length = 144) (ops : List HOp)
+    (ht : ∀ op ∈ ops, op.target ≠ some (h.size + 1)) :
+    ∃ s, s.length = 196
+      ∧ (runOps (runOps h [.new (.bits false b), .call .encode h.size]) ops).read (h.size + 1)
+          = some (.bits false s)
+      ∧ ((HOp.call .decode (h.size + 1)).run
+            (runOps (runOps h [.new (.bits false b), .call .encode h.size]) ops)).read
+          (runOps (runOps h [.new (.bits false b), .call .encode h.size]) ops).size
+          = some (.bits false b) := by
+  obtain ⟨s, he, hl, hd⟩ := encode_decode tablesOk b hb
+  obtain ⟨c1, _, c3⟩ := runOps_new_call h (.bits false b) .encode
+  have hs : Fn.apply .encode (.bits false b) = .bits false s := by
+    show Obj.ofR Obj.big (encode b) = _
+    rw [he]; rfl
+  have hread := read_runOps (runOps h [.new (.bits false b), .call .encode h.size]) ops (h.size + 1)
+    (by omega) ht
+  rw [c3, hs] at hread
+  refine ⟨s, hl, hread, ?_⟩
+  obtain ⟨_, d2, _⟩ := HOp.run_call _ .decode (h.size + 1) _ hread
+  rw [d2]
+  show some (Obj.ofR Obj.big (decode s)) = _
+  rw [hd]; rfl
+
+/-- the same for 18 octets in, `as_bytes=True` out -/
+theorem round_trip_in_history_bytes (h : Store) (bs : Bytes) (hl : bs.length = 18)
+    (hb : ∀ x ∈ bs, x < 256) (ops : List HOp)
+    (ht : ∀ op ∈ ops, op.target ≠ some (h.size + 1)) :
+    ∃ s, s.length = 196
+      ∧ (runOps (runOps h [.new (.octets bs), .call .encode h.size]) ops).read (h.size + 1)
+          = some (.bits false s)
+      ∧ ((HOp.call .decodeBytes (h.size + 1)).run
+            (runOps (runOps h [.new (.octets bs), .call .encode h.size]) ops)).read
+          (runOps (runOps h [.new (.octets bs), .call .encode h.size]) ops).size
+          = some (.octets bs) := by
+  have hlen : (bytesToBits bs).length = 144 := by rw [bytesToBits_length octets_ok bs hb, hl]
+  obtain ⟨s, he, hsl, hd⟩ := encode_decode tablesOk (bytesToBits bs) hlen
+  obtain ⟨c1, _, c3⟩ := runOps_new_call h (.octets bs) .encode
+  have hs : Fn.apply .encode (.octets bs) = .bits false s := by
+    show Obj.ofR Obj.big (encode (bytesToBits bs)) = _
+    rw [he]; rfl
+  have hread := read_runOps (runOps h [.new (.octets bs), .call .encode h.size]) ops (h.size + 1)
+    (by omega) ht
+  rw [c3, hs] at hread
+  refine ⟨s, hsl, hread, ?_⟩
+  obtain ⟨_, d2, _⟩ := HOp.run_call _ .decodeBytes (h.size + 1) _ hread
+  rw [d2]
+  show some (Obj.ofR Obj.octets (decodeAsBytes s)) = _
+  simp only [decodeAsBytes, hd, bitsToBytes_bytesToBits octets_ok bs hb]
+  rfl
+
 /-! ## outside the property's assumption: a little-endian bitarray argument
 
 `bits_to_tribits` uses `ba2int` on slices, which honours the endianness of the caller's bitarray,
@@ -258,6 +355,25 @@ def rejectWitness : Bool :=
   | .error _ => false
 
 example : rejectWitness = true := by decide +kernel
+
+/-- a history of the kind the hypotheses of `round_trip_in_history` allow, evaluated by the kernel:
+encode a block (object 1), damage the returned stream in place (flip, extend), encode the same block
+again (object 2), decode that (3); encode the octets (5), wipe the first argument object, decode the
+third stream as bytes (6).  The damaged stream stays damaged, the later ones are intact. -/
+def historyWitness : Bool :=
+  let b := bytesToBits sampleOctets
+  let h := runOps Store.empty
+    [.new (.bits false b), .call .encode 0, .edit 1 (.flip 0), .edit 1 (.extend (.bits false [true, false])),
+     .call .encode 0, .call .decode 2, .new (.octets sampleOctets), .call .encode 4, .edit 0 .clear,
+     .call .decodeBytes 5]
+  match h.read 0, h.read 1, h.read 2, h.read 3, h.read 5, h.read 6 with
+  | some (.bits _ a), some (.bits _ s1), some (.bits _ s2), some (.bits _ d), some (.bits _ s3),
+      some (.octets o) =>
+    a.isEmpty && s1.length == 198 && s2.length == 196 && s1.take 196 != s2
+      && (flipAt 0 (s1.take 196)) == s2 && d == b && s3 == s2 && o == sampleOctets && h.size == 7
+  | _, _, _, _, _, _ => false
+
+example : historyWitness = true := by decide +kernel
 
 /-- a little-endian bitarray argument really differs: `110…` comes back as `011…` -/
 example : rev3 (bytesToBits sampleOctets) ≠ bytesToBits sampleOctets := by decide +kernel
